@@ -4,7 +4,7 @@ from __future__ import annotations
 
 import ast
 
-from tiv.astutil import (body_walk, call_name, dotted, enclosing_stmt, guards, norm, short, stores_in, try_context,
+from tiv.astutil import (body_walk, call_name, conds, dotted, enclosing_stmt, guards, norm, short, stores_in, try_context,
                          walk_local)
 from tiv.cfg import CFG, EX, KI, handler_classes, handler_reraise
 from tiv.effects import emits, is_output_call, names_in, output_aliases, output_calls
@@ -173,6 +173,16 @@ def run(ck, m):
                   f"{'an ordinary exception (e.g. OSError from the stream)' if EX in need - covered else 'Ctrl-C'} during the write skips the interrupted-draw hook, leaving the graphics command unterminated",
                   stmt=f"{fn.name}: handlers cover {sorted(need)}: {short(c, 60)}")
             ck.ob("R2", st, ok_hook, "a handler for an interruption of this write does not call the interrupted-draw hook on every path", stmt=f"{fn.name}: hook called in handlers: {short(c, 60)}")
+            # the stream is buffered: the bytes reach the terminal when it is flushed, so the flush that delivers this write belongs to the same
+            # protected region (a Ctrl-C during a flush outside it cuts the frame with no hook call)
+            kwf = next((k.value for k in c.keywords if k.arg == "flush"), None)
+            self_flushing = isinstance(kwf, ast.Constant) and kwf.value is True
+            al_ = output_aliases(fn)
+            later = [c2 for b_ in tr.body for c2 in walk_local(b_) if isinstance(c2, ast.Call) and c2.lineno >= c.lineno and c2 is not c
+                     and ((isinstance(c2.func, ast.Attribute) and c2.func.attr == "flush") or (isinstance(c2.func, ast.Name) and norm(trace(fn, c2.func, use=c2)).endswith(".flush")))
+                     and not (conds(c2) - conds(c))]
+            ck.ob("R2", st, self_flushing or bool(later), "this render output is written inside the protected try but flushed outside it (or not at all): the flush is what delivers a buffered frame to the terminal, "
+                  "and an interruption during it then bypasses the interrupted-draw hook", stmt=f"{fn.name}: write flushed inside the protected try: {short(c, 50)}")
     ck.expect(n_w >= 4, f"expected >= 4 render-output writes in the draw paths (one per driver), found {n_w}")
 
     # ---- R3 ----------------------------------------------------------------------------
